@@ -151,6 +151,119 @@ theorem Op2.exec_rel (o : Op2 α) {l l0 r r0 : Tr α} (hl : Rel l l0) (hr : Rel 
     rw [hc]
     exact ⟨rfl, List.IsPrefix.trans hp (Op2.cont_chunks_prefix o r0 _)⟩
 
+theorem Rel.prepend_both (outs : List α) {t t0 : Tr α} (h : Rel t t0) : Rel (t.prepend outs) (t0.prepend outs) := by
+  rcases h with h | ⟨hf, hp⟩
+  · subst h; exact Or.inl rfl
+  · exact Or.inr ⟨hf, (List.prefix_append_right_inj outs).mpr hp⟩
+
+/-- What is left of an input in the faulty run vs the fault-free run: the same, or an
+error-terminated prefix. (`Rel` on the remaining parts.) -/
+theorem Rel.tail {c : α} {cs cs0 : List α} {f f0 : Option Nat} (h : Rel (⟨c :: cs, f⟩ : Tr α) ⟨c :: cs0, f0⟩) :
+    Rel (⟨cs, f⟩ : Tr α) ⟨cs0, f0⟩ := by
+  rcases h with h | ⟨hf, hp⟩
+  · left
+    cases h; rfl
+  · right
+    refine ⟨hf, ?_⟩
+    simp only [List.cons_prefix_cons] at hp
+    exact hp.2
+
+/-- The interleaved loop (merge join): related inputs give related outputs — an `Err` item of
+either input is re-raised at whatever position the loop meets it, and until then the loop behaves
+as in the fault-free run. -/
+theorem OpM.go_rel (o : OpM α) : ∀ (n : Nat) (s : o.σ) (l l0 r r0 : Tr α), Rel l l0 → Rel r r0 →
+    Rel (o.go n s l r) (o.go n s l0 r0) := by
+  intro n
+  induction n with
+  | zero => intro s l l0 r r0 _ _; exact Or.inl rfl
+  | succ n ih =>
+    intro s l l0 r r0 hl hr
+    simp only [OpM.go]
+    cases hw : o.want s with
+    | none => exact Or.inl rfl
+    | some side =>
+      simp only
+      -- the polled input and its fault-free counterpart
+      have key : ∀ (inp inp0 : Tr α), Rel inp inp0 →
+          (∀ cs cs0 c, inp.chunks = c :: cs → inp0.chunks = c :: cs0 → ∀ s' : o.σ,
+            Rel (o.go n s' (if side then ⟨cs, l.fin⟩ else l) (if side then r else ⟨cs, r.fin⟩))
+                (o.go n s' (if side then ⟨cs0, l0.fin⟩ else l0) (if side then r0 else ⟨cs0, r0.fin⟩))) →
+          (inp.chunks = [] → inp.fin = none → inp0.chunks = [] ∧ inp0.fin = none) →
+          Rel (match inp.chunks with
+               | c :: cs => (match o.onItem s side (some c) with
+                  | .error e => (⟨[], some e⟩ : Tr α)
+                  | .ok (s', outs) => (o.go n s' (if side then ⟨cs, l.fin⟩ else l) (if side then r else ⟨cs, r.fin⟩)).prepend outs)
+               | [] => (match inp.fin with
+                  | some e => ⟨[], some e⟩
+                  | none => (match o.onItem s side none with
+                     | .error e => ⟨[], some e⟩
+                     | .ok (s', outs) => (o.go n s' l r).prepend outs)))
+              (match inp0.chunks with
+               | c :: cs => (match o.onItem s side (some c) with
+                  | .error e => (⟨[], some e⟩ : Tr α)
+                  | .ok (s', outs) => (o.go n s' (if side then ⟨cs, l0.fin⟩ else l0) (if side then r0 else ⟨cs, r0.fin⟩)).prepend outs)
+               | [] => (match inp0.fin with
+                  | some e => ⟨[], some e⟩
+                  | none => (match o.onItem s side none with
+                     | .error e => ⟨[], some e⟩
+                     | .ok (s', outs) => (o.go n s' l0 r0).prepend outs))) := by
+        intro inp inp0 hrel hstep hend
+        cases hc : inp.chunks with
+        | nil =>
+          cases hf : inp.fin with
+          | some e => exact Or.inr ⟨rfl, List.nil_prefix⟩
+          | none =>
+            obtain ⟨h1, h2⟩ := hend hc hf
+            simp only [h1, h2]
+            cases o.onItem s side none with
+            | error e => exact Or.inl rfl
+            | ok p => exact Rel.prepend_both p.2 (ih p.1 l l0 r r0 hl hr)
+        | cons c cs =>
+          -- the fault-free input starts with the same chunk
+          have hp := hrel.prefix
+          rw [hc] at hp
+          cases hc0 : inp0.chunks with
+          | nil => simp [hc0] at hp
+          | cons c0 cs0 =>
+            rw [hc0, List.cons_prefix_cons] at hp
+            obtain ⟨hcc, _⟩ := hp
+            subst hcc
+            simp only
+            cases o.onItem s side (some c) with
+            | error e => exact Or.inl rfl
+            | ok p => exact Rel.prepend_both p.2 (hstep cs cs0 c hc hc0 p.1)
+      cases side with
+      | true =>
+        simp only [if_true]
+        apply key l l0 hl
+        · intro cs cs0 c hc hc0 s'
+          simp only [if_true]
+          apply ih s' _ _ _ _ _ hr
+          have : Rel (⟨c :: cs, l.fin⟩ : Tr α) ⟨c :: cs0, l0.fin⟩ := by
+            have e1 : (⟨c :: cs, l.fin⟩ : Tr α) = l := by cases l; simp_all
+            have e2 : (⟨c :: cs0, l0.fin⟩ : Tr α) = l0 := by cases l0; simp_all
+            rw [e1, e2]; exact hl
+          exact Rel.tail this
+        · intro hc hf
+          rcases hl with h | ⟨hsome, _⟩
+          · subst h; exact ⟨hc, hf⟩
+          · rw [hf] at hsome; cases hsome
+      | false =>
+        simp only [Bool.false_eq_true, if_false]
+        apply key r r0 hr
+        · intro cs cs0 c hc hc0 s'
+          simp only [Bool.false_eq_true, if_false]
+          apply ih s' _ _ _ _ hl
+          have : Rel (⟨c :: cs, r.fin⟩ : Tr α) ⟨c :: cs0, r0.fin⟩ := by
+            have e1 : (⟨c :: cs, r.fin⟩ : Tr α) = r := by cases r; simp_all
+            have e2 : (⟨c :: cs0, r0.fin⟩ : Tr α) = r0 := by cases r0; simp_all
+            rw [e1, e2]; exact hr
+          exact Rel.tail this
+        · intro hc hf
+          rcases hr with h | ⟨hsome, _⟩
+          · subst h; exact ⟨hc, hf⟩
+          · rw [hf] at hsome; cases hsome
+
 theorem applyFault_rel (ft : Option Fault) {t t0 : Tr α} (h : Rel t t0) : Rel (applyFault ft t) t0 := by
   cases ft with
   | none => exact h
@@ -182,6 +295,13 @@ theorem Plan.tr_rel : ∀ (p : Plan α), Rel p.tr p.clean.tr
     have : applyFault none (o.exec l.clean.tr r.clean.tr) = o.exec l.clean.tr r.clean.tr := rfl
     rw [this]
     exact applyFault_rel ft (Op2.exec_rel o ihl ihr)
+  | .mjoin ft o fuel l r => by
+    simp only [Plan.tr, Plan.clean]
+    have ihl := Plan.tr_rel l
+    have ihr := Plan.tr_rel r
+    have : applyFault none (o.exec fuel l.clean.tr r.clean.tr) = o.exec fuel l.clean.tr r.clean.tr := rfl
+    rw [this]
+    exact applyFault_rel ft (OpM.go_rel o fuel o.init _ _ _ _ ihl ihr)
 
 /-- An `ErrHit` plan's root task ends with an `Err` item. -/
 theorem Plan.errHit_fin : ∀ (p : Plan α), p.ErrHit → ∃ e, p.tr.fin = some e
@@ -220,6 +340,12 @@ theorem Plan.errHit_fin : ∀ (p : Plan α), p.ErrHit → ∃ e, p.tr.fin = some
         · obtain ⟨e, he⟩ := Plan.errHit_fin r hc
           obtain ⟨e', he'⟩ := Phase.run_error_of_noStop o.phR hnr e r.tr.chunks s
           exact ⟨e', by simp [he, he', finish]⟩
+  | .mjoin ft o fuel l r, h => by
+    obtain ⟨k, kd, hft, hk⟩ := h
+    subst hft
+    cases kd
+    · exact ⟨0, by simp [Plan.tr, applyFault, hk]⟩
+    · exact ⟨2, by simp [Plan.tr, applyFault, hk]⟩
 
 /-! ### prefix monotonicity of streaming loops -/
 
